@@ -56,6 +56,10 @@ PyObject* py_center_of_mass(PyObject* self, PyObject* args) {
             PyErr_Format(PyExc_RuntimeError, "%s (second argument is not None, but does not match expectations)", TypeErrorMsg);
             return NULL;
         }
+        if (!numpy::same_shape(array, labels_arr)) {
+            PyErr_SetString(PyExc_ValueError, "mahotas.center_of_mass: `labels` must have the same shape as `img`");
+            return NULL;
+        }
         labels = ndarray_cast<const npy_int32*>(labels_arr);
     }
     holdref labels_obj_hr(labels_obj);
